@@ -74,6 +74,12 @@ impl<M: ManagedTypeApi + CryptoApi> Random<M> {
     }
 
     fn hash_seed(&mut self) {
+        #[cfg(feature = "verif-hooks")]
+        if crate::verif_hooks::typed_hash_seed(&mut self.seed) {
+            self.index = 0;
+            return;
+        }
+
         let handle = self.seed.get_raw_handle();
         M::crypto_api_impl().sha256_managed(handle.into(), handle.into());
 
